@@ -3,7 +3,7 @@ import ast
 import os
 from pyvc.harness import Task, load_spec_module
 from pyvc import ops, stubs
-from pyvc.values import Obj, Sym, Opaque
+from pyvc.values import OutOfSubset, Obj, Sym, Opaque
 from pyvc.interp import TypeRef, Builtin
 from pyvc.engine import RaiseSignal
 import contracts.C19 as K
@@ -127,6 +127,41 @@ def t_frame(h):
                 {'module_level_names_read': sorted(set(bad)), 'global_statement': uses_global_stmt})
 
 
+def t_simulator_forwards(simulator):
+    """both simulators hand the `hyperparameters` argument they received to _prepare_routes (a contracted call here; its own
+    contract is precedence.*): the values the caller passed reach the strategies in the normal and in the fast mode"""
+    def t(h):
+        from props import sim
+        BM = 'jesse.modes.backtest_mode'
+        sim.lib_time(h)
+        S = sim.build(h, symbols=('BTC-USDT',), timeframes=('1m', '5m'), route_tfs=('5m',))
+        key = (f'{BM}.{simulator}', 0)
+        h.ctx.cfg.extra['havoc'] = {key: {'last_update_time': lambda i, old: Opaque('t')}}
+        h.ctx.cfg.invariants[key] = []
+        ov = h.ctx.cfg.overrides
+        ov[f'{BM}._execute_market_orders'] = lambda i, a, k: None
+        ov[f'{BM}._calculate_minimum_candle_step'] = lambda i, a, k: 5
+        ov[f'{BM}._simulate_new_candles'] = lambda i, a, k: None
+        got = []
+        ov[f'{BM}._prepare_routes'] = lambda i, a, k: got.append((tuple(a), dict(k)))
+        H = {'a': h.real('Ha'), 'b': h.int('Hb')}
+        out = h.outcome(f'{BM}.{simulator}', S.candles, True, hyperparameters=H)
+        h.prove(out.ok, f'simulator.{simulator}.no-exception', {'raised': out.exc})
+        ok = len(got) == 1 and ((len(got[0][0]) >= 1 and got[0][0][0] is H) or got[0][1].get('hyperparameters') is H)
+        h.prove(ok, f'simulator.{simulator}.hands-the-hyperparameters-argument-to-the-routes', {'calls': len(got)})
+    return t
+
+
+def t_float_grid(h):
+    """BOUNDED, native: assumption A-1 (floats are reals) is probed where it can hide a defect of this property - the decoded value
+    of every gene must stay inside [min, max] in binary floating point as well (grid of ranges x 80 genes x both types)"""
+    from pyvc import report as R
+    res = R.native([os.path.join(HERE, '..', 'native', 'run.py'), 'C19'], {'obligation': 'float-grid', 'task': 'float-grid', 'model': {}, 'm': {}})
+    if res.get('error'):
+        raise OutOfSubset('native stand-in did not run: ' + str(res.get('error'))[:300])
+    h.prove(not res.get('confirmed'), 'float-grid.decoded-value-stays-inside-the-declared-range-in-binary-floats', {'detail': res.get('detail')})
+
+
 def t_alphabet(h):
     f = h.repo.find('jesse.modes.optimize_mode.Optimize.Optimizer.__init__')
     a = f.node.args
@@ -155,6 +190,9 @@ def mk_precedence(explicit, with_dna, with_decl):
         if with_dna and not with_decl:
             dna = [h.int('g0', K.FIRST, K.LAST)]
         H = {'a': h.real('Ha'), 'b': h.int('Hb')} if explicit else None
+        if explicit and with_decl and h.branch(h.bool('explicit_values_cover_only_some_names')):
+            H = {'a': H['a']}
+        snap = dict(H) if explicit else None
         scls = h.repo.find('jesse.strategies.Strategy.Strategy')
         pos = Obj(None, {'strategy': None}, name='position')
         route = Obj(None, {'strategy_name': None, 'exchange': 'Sandbox', 'symbol': 'BTC-USDT', 'timeframe': '1m',
@@ -180,7 +218,9 @@ def mk_precedence(explicit, with_dna, with_decl):
         want = h.spec('expected_hp', H, dna, decl)
         got = st.f.get('hp')
         if explicit:
-            h.prove(got is H or ops.equal(got, want) is True, 'precedence.explicit-values-win')
+            exact = isinstance(got, dict) and set(got) == set(snap) and all(got[k] is snap[k] or ops.equal(got[k], snap[k]) is True for k in snap)
+            h.prove(exact, 'precedence.explicit-values-win', {'clause': 'strategy.hp holds exactly the values the caller passed', 'got_keys': sorted(got) if isinstance(got, dict) else None})
+            h.prove(set(H) == set(snap) and all(H[k] is snap[k] for k in snap), 'precedence.the-callers-dict-is-left-unmodified')
         elif with_dna:
             h.prove(isinstance(got, dict) and isinstance(want, dict) and ops.equal(got, want), 'precedence.dna-over-defaults',
                     {'clause': 'strategy.hp == dna_to_hp(hyperparameters(), dna())'})
@@ -195,7 +235,10 @@ def tasks(tier):
     x = dict(spec_mod=SPEC)
     ov = stubs.backtest_mode()
     ts = [Task('float', t_float, extra=x), Task('int', t_int, extra=x), Task('independent', t_independent, extra=x),
-          Task('alphabet', t_alphabet, extra=x), Task('frame', t_frame, extra=x)]
+          Task('alphabet', t_alphabet, extra=x), Task('frame', t_frame, extra=x),
+          Task('simulator._step_simulator', t_simulator_forwards('_step_simulator'), extra=x, overrides=dict(ov), invariants={}),
+          Task('simulator._skip_simulator', t_simulator_forwards('_skip_simulator'), extra=x, overrides=dict(ov), invariants={}),
+          Task('float-grid', t_float_grid, extra=dict(x, bounded='grid of 9 x 14 ranges x 80 genes x 2 types, binary floats (native)'))]
     for e in (False, True):
         for d in (False, True):
             for c in (False, True):
